@@ -404,6 +404,9 @@ def _params(rng, name, S):
     if name == "filter_valid":
         return dict(last=rng.random() < 0.5)
     if name == "remove_nasty_arc":
+        fixed = getattr(S, "strip_flags", None)
+        if fixed is not None:
+            return dict(it=rng.randint(0, 3), ins=fixed[0], dele=fixed[1])
         return dict(it=rng.randint(0, 3), ins=rng.random() < 0.5, dele=rng.random() < 0.5)
     if name in ADOPT:
         return dict(adopt=rng.random() < 0.5)
@@ -413,7 +416,8 @@ def _params(rng, name, S):
 def generate(ctx):
     rng = ctx.rng
     for i in range(ctx.pick(20, 250)):
-        yield "history", dict(seed=rng.getrandbits(48), length=rng.randint(20, 60), fresh_each=(not ctx.quick()) and rng.random() < 0.15)
+        yield "history", dict(seed=rng.getrandbits(48), length=rng.randint(20, 60), fresh_each=(not ctx.quick()) and rng.random() < 0.15,
+                              layout=rng.choice([None, None, None, "F"]))
         if i % 5 == 0:
             # strip run: arc removal repeated on the shared views until it raises (the states deep into a removal
             # sequence - vertices without arcs that are still arc heads - are where progress output and scoring differ)
@@ -427,6 +431,10 @@ def check_history(ctx, case):
     dsw = import_dsw()
     rng = random.Random(case["seed"])
     S = State(_initial(rng, bool(case.get("large")), bool(case.get("strip"))))
+    if case.get("strip"):
+        S.strip_flags = rng.choice([(True, True), (True, False), (False, True), (False, False), (False, False)])
+    if case.get("layout") == "F":
+        S.acc = np.asfortranarray(S.acc)          # the shared accessor in column-major memory
     names = [n for n, w in WEIGHTS for _ in range(w)]
     recs, live_results, seen_ops = [], [], set()
     where0 = "history seed=%d" % case["seed"]
@@ -437,7 +445,7 @@ def check_history(ctx, case):
     for step in range(case["length"]):
         if rng.random() < 0.12:
             # harness-side edits *in place* (same objects): what a caller does between library calls
-            kind = rng.choice(["edit_accessor", "edit_accessor", "refill_mask", "edit_table"])
+            kind = rng.choice(["edit_accessor", "edit_accessor", "rewire_accessor", "rewire_accessor", "refill_mask", "edit_table"])
             n_v = 4 ** S.k
             if kind == "edit_accessor":
                 for _e in range(rng.randint(1, 3)):
@@ -452,6 +460,26 @@ def check_history(ctx, case):
                     else:
                         S.acc[v, j] = w
                         S.lm.setdefault(v, []).append(w)
+            elif kind == "rewire_accessor":
+                # move an arc v->w to a sibling former v'->w: one entry disappears, an equal entry appears elsewhere
+                # (the sum and the number of arcs stay the same)
+                for _e in range(rng.randint(1, 2)):
+                    arcs = np.argwhere(S.acc >= 0)
+                    if len(arcs) == 0:
+                        break
+                    v, j = map(int, arcs[rng.randrange(len(arcs))])
+                    w = int(S.acc[v, j])
+                    others = [u for u in G.preds(w, S.k) if u != v and S.acc[u, j] < 0]
+                    if not others:
+                        continue
+                    u = rng.choice(others)
+                    S.acc[v, j] = -1
+                    S.acc[u, j] = w
+                    if v in S.lm and w in S.lm[v]:
+                        S.lm[v].remove(w)
+                        if not S.lm[v]:
+                            del S.lm[v]
+                    S.lm.setdefault(u, []).append(w)
             elif kind == "refill_mask":
                 S.mask[...] = np.array(gens.rand_mask(rng, S.k, rng.choice([0.5, 0.8, 1.0])), dtype=bool)
             else:
@@ -581,6 +609,8 @@ def check_history(ctx, case):
         ctx.cls("histories at order 6")
     if case.get("strip"):
         ctx.cls("strip histories (arc removal until it raises)")
+    if case.get("layout") == "F":
+        ctx.cls("histories on a Fortran-ordered shared accessor")
     ctx.done("history", case, len(seen_ops) >= 3)
 
 
@@ -609,7 +639,7 @@ def floors(agg, tier):
     if c.get("in-place removal followed by further calls", 0) < 100:
         out.append("in-place removals: %d < 100" % c.get("in-place removal followed by further calls", 0))
     for name, need in (("call repeated after its result was scrambled", 2000), ("shared objects edited in place by the harness", 300),
-                       ("histories at order 6", 8), ("strip histories (arc removal until it raises)", 30)):
+                       ("histories at order 6", 8), ("histories on a Fortran-ordered shared accessor", 30), ("strip histories (arc removal until it raises)", 30)):
         if c.get(name, 0) < need:
             out.append("%s observed %d < %d" % (name, c.get(name, 0), need))
     if c.get("adopted a returned accessor as the shared accessor", 0) < 30:
